@@ -323,6 +323,8 @@ AUX = {
     "n1": ("n1", "!", ("str", "b")),
     "hn": ("hn", "", ("seq", ("ref", "c1"), ("ref", "n1"))),
     "sc": ("sc", "_", ("choice", ("str", "b"), ("ref", "x"))),
+    "sf": ("sf", "_", ("seq", ("ref", "x"), ("str", "!"))),
+    "sg": ("sg", "_", ("seq", ("ref", "x"), ("ref", "sf"))),
     "pf": ("pf", "", ("seq", ("pushlit", "a"), ("str", "!"))),
     "qf": ("qf", "", ("seq", ("pop",), ("str", "!"))),
 }
@@ -379,6 +381,10 @@ KINDS: dict[str, tuple[Expr, bool]] = {
     "silentchoice": (("choice", S("ab"), ("ref", "sc")), False),
     "cmref": (("seq", ("ref", "COMMENT"), B), False),
     "wsref": (("seq", ("ref", "WHITESPACE"), B), False),
+    "altsilentfail": (("choice", ("ref", "sf"), ("ref", "x")), False),
+    "altsilentfail2": (("choice", ("ref", "sg"), ("seq", ("ref", "x"), ("ref", "x"))), False),
+    "optsilentfail": (("seq", ("opt", ("ref", "sf")), ("ref", "x")), False),
+    "starsilentfail": (("seq", ("star", ("ref", "sf")), ("ref", "x")), False),
     "optpf": (("seq", ("opt", ("ref", "pf")), ("peekall",)), False),
     "repmaxpf": (("seq", ("rep", ("ref", "pf"), None, 2), ("peekall",)), False),
     "optqf": (("seq", ("opt", ("ref", "qf")), ("peekall",)), True),
